@@ -460,3 +460,43 @@ def sweep_family(tier):
                                          meta={'family': 'sweep_' + name, 'min_stack': m, 'allow_exhausted': 'prefix',
                                                'classifier': {'sweep': name}}))
     return items
+
+
+# ------------------------------------------------------------------------------------------------ C16 dynamic templates
+EXIT_TEMPLATES = [
+    ('loop_return_continue', '''int find(const int[] a) { int i = -1; while (true) { i += 1; if (a[i] < 10) { continue; } return a[i]; } }
+int findf(const int[] a) { for (int i = 0; ; i += 1) { if (a[i] < 10) { continue; } if (a[i] > 100) { break; } return a[i]; } return 0 - 1; }
+int both(const int[] a) { int i = 0; while (i < a.length) { i += 1; if (a[i - 1] == 0) { continue; } if (a[i - 1] < 0) { break; } return a[i - 1]; } return 0; }
+empty @is_you(const int[] a) { write(find(a)); write(','); write(findf(a)); write(','); write(both(a)); }''',
+     [['12'], ['3', '12'], ['3', '4', '500', '12'], ['0', '0', '-1', '50'], ['1', '2', '3', '77']]),
+    ('defeat_only_paths', '''int !risky(int x) { !truth_is_defeat(x > 5); return x * 2; }
+int @guard(int x) { try { int y = !risky(x); return y + 1; } undo { write('u'); } return 0 - 1; }
+int @guard2(int x) { try { return !risky(x) + !risky(x + 3); } stop { write('s'); } return 0 - 2; }
+empty @last(int x) { try { write(!risky(x)); return; } undo { write('U'); } }
+empty @is_you(int x) { write(@guard(x)); write(','); write(@guard2(x)); write(','); @last(x); write('.'); }''',
+     [['0'], ['3'], ['6'], ['9']]),
+    ('terminal_name_overloads', '''empty all_is_broken(string why) { write("E:"); write(why); }
+empty all_is_win(int code) { write("W:"); write(code); }
+int after(int x) { if (x > 1) { all_is_broken("big"); } else { all_is_win(x); } write('t'); return x + 1; }
+empty @is_you(int x) { write(after(x)); all_is_broken("late"); write("done"); if (x == 9) { all_is_broken(); } write('!'); }''',
+     [['0'], ['5'], ['9']]),
+    ('nested_terminal', '''int pick(int x) { if (x == 0) { return 1; } else { if (x == 1) { all_is_win(); } else { while (true) { if (x == 2) { return 3; } x -= 1; } } } }
+int pick2(int x) { for (;;) { if (x > 3) { all_is_broken(); } if (x == 3) { break; } x += 1; } return x; }
+empty @is_you(int x) { write(pick2(x)); write(pick(x)); write('>'); }''', [['0'], ['1'], ['2'], ['5'], ['3']]),
+    ('try_in_loop_exits', '''int x = 0;
+empty !f() { !truth_is_defeat(x == 1); }
+int @scan(const int[] a) { for (int i = 0; i < a.length; i += 1) { try { x = a[i]; !f(); if (a[i] == 7) { return i; } if (a[i] == 8) { break; } continue; } %(kind)s { write('h'); } write('.'); } return 0 - 1; }
+empty @is_you(const int[] a) { write(@scan(a)); }''', [['2', '7'], ['1', '8', '7'], ['1', '1'], ['3', '4']]),
+]
+
+
+def exit_templates():
+    items = []
+    for name, tmpl, argss in EXIT_TEMPLATES:
+        kinds = ['undo', 'stop'] if '%(kind)s' in tmpl else ['-']
+        for kind in kinds:
+            src = tmpl % {'kind': kind} if kind != '-' else tmpl
+            for a in argss:
+                items.append(runner.Item(('exit', name, kind, tuple(a)), src, [str(v) for v in a], s=160,
+                                         meta={'family': 'exit_' + name, 'classifier': {'half': 'dynamic', 'tt': name}}))
+    return items
